@@ -147,7 +147,8 @@ def lstepCore (n : Nat) (s : LSt) : LLabel → Option LSt
     else none
   | .issue i p =>
     let x := s.inst i
-    if x.loopOn && x.alive && !x.needProvision && x.call.isNone && decide (x.held.length < x.target) && decide (p < x.parts)
+    -- (a pending re-provisioning is noticed at the top of the next iteration only: requests may still be issued)
+    if x.loopOn && x.alive && x.call.isNone && decide (x.held.length < x.target) && decide (p < x.parts)
         && !x.held.contains p then
       some { s with inst := updI s.inst i { x with call := some { part := p, issuedAt := s.now, result := none } } }
     else none
@@ -185,7 +186,8 @@ def lstepCore (n : Nat) (s : LSt) : LLabel → Option LSt
     else none
   | .crash i =>
     let x := s.inst i
-    some { s with inst := updI s.inst i { x with alive := false, loopOn := false, call := none } }
+    -- the process is gone; a lease request it had in flight may still reach the store (`proc`)
+    some { s with inst := updI s.inst i { x with alive := false, loopOn := false } }
   | .advance dt => if lCanAdvance s n dt then some { s with now := s.now + dt } else none
 
 /-- the machine has `n` instances: labels of other indexes are not enabled -/
